@@ -56,7 +56,9 @@ C07Verdict(l, r) ==
   /\ \A i \in 1..4 : Need(paths[i][2].r # "ok" \/ paths[i][2].n >= 0,
                           V(l, "skip path " \o paths[i][1] \o " reports a length / bytes that are not a prefix of the input"))
   \* captured opaque sub-values
-  /\ Need(r.capture.r # "diff", V(l, "captured opaque sub-value does not re-decode to the same value: " \o r.capture.d))
+  \* (C07 binds capture to decoding only "whenever full decoding succeeds": an input that does not decode -- e.g.
+  \* a struct whose duplicate field id hides an ill-formed field from the capture map -- is not judged)
+  /\ Need(r.dec.r # "ok" \/ r.capture.r # "diff", V(l, "captured opaque sub-value does not re-decode to the same value: " \o r.capture.d))
   \* allocation
   /\ Need(r.alloc.dec <= AllocBound(n), V(l, "peak allocation of decoding exceeds 512*len+16384"))
   /\ Need(r.alloc.skip <= AllocBound(n), V(l, "peak allocation of skipping exceeds 512*len+16384"))
